@@ -316,14 +316,8 @@ def check(ctx):
     gens_ = [t for t in P.trait_impls.get("tauri_typegen::generators::base::BaseBindingsGenerator::generate_models", []) if t in P.fns]
     shrink = {}
     for gid in gens_:
-        ops_ = set()
-        for fid_ in P.reachable([gid]):
-            if "tauri_typegen::generators::" not in fid_:
-                continue
-            for c_ in P.fns[fid_].calls:
-                if c_.bb in P.fns[fid_].reach_blocks and short_path(c_.path) in ("HashMap::retain", "HashMap::remove", "HashMap::extract_if") and "StructInfo" in " ".join(c_.generics + [c_.self_ty or ""]):
-                    ops_.add("shrinks-used-set")
-        shrink[gid] = ops_
+        from c18 import narrowing_calls
+        shrink[gid] = {"shrinks-used-set"} if any("tauri_typegen::generators::" in f_.id for (f_, _c, _k) in narrowing_calls(P, gid)) else set()
     if len(gens_) == 2:
         a_, b_ = gens_
         if shrink[a_] == shrink[b_]:
